@@ -93,6 +93,49 @@ def scenario_from_graph(g, placement=0, jobs=1, stop=False, sched=None, git_tpl=
     return scn
 
 
+def rename_local(scn):
+    """Give tasks package-LOCAL names (u1, u2, ... counted per package) instead of the project-wide t1..tn, so that tasks in
+    different packages share a bare name (//p:u1, //:u1, //p/q:u1).  Everything that mentions a task is rewritten."""
+    tasks = scn["project"]["tasks"]
+    count, mp = {}, {}
+    for t in tasks:
+        pkg = t.get("pkg", "")
+        count[pkg] = count.get(pkg, 0) + 1
+        mp["//%s:%s" % (pkg, t["name"])] = "u%d" % count[pkg]
+
+    def new_ident(ident):
+        pkg = ident[2:].split(":")[0]
+        return "//%s:%s" % (pkg, mp[ident]) if ident in mp else ident
+    for t in tasks:
+        pkg = t.get("pkg", "")
+        nd = []
+        for d in t.get("deps", []):
+            full = R.resolve_dep(d, pkg)
+            if full not in mp:
+                nd.append(d)
+            elif d.startswith(":"):
+                nd.append(":" + mp[full])
+            else:
+                nd.append(d.rsplit(":", 1)[0] + ":" + mp[full])
+        t["deps"] = nd
+    for t in tasks:
+        t["name"] = mp["//%s:%s" % (t.get("pkg", ""), t["name"])]
+    for r in scn["project"].get("index") or []:
+        r["task"] = new_ident(r["task"])
+    for d in scn["project"].get("dirs") or []:
+        d["task"] = new_ident(d["task"])
+    scn["argv"] = [new_ident(a) if isinstance(a, str) and a.startswith("//") else a for a in scn["argv"]]
+    sch = scn.get("sched") or {}
+    if "codes" in sch:
+        sch["codes"] = {new_ident(k): v for k, v in sch["codes"].items()}
+    if "fail_launch" in sch:
+        sch["fail_launch"] = [new_ident(k) for k in sch["fail_launch"]]
+    if "reusable_override" in scn:
+        scn["reusable_override"] = {new_ident(k): v for k, v in scn["reusable_override"].items()}
+    scn["local_names"] = True
+    return scn
+
+
 def make_git_template(dirpath):
     """A repository with three commits c1 <- c2 <- c3 (HEAD). Returns {"path", "commits": [c1,c2,c3]}."""
     os.makedirs(dirpath, exist_ok=True)
